@@ -251,5 +251,20 @@ PROPS["C19"] = dict(
                  "programs whose evaluation contains a fatal error are skipped (they still race after the deep pre-walk)"],
 )
 
+PROPS["C08"] = dict(
+    pkg="c08",
+    subs=[
+        dict(name="corpus", test="TestCorpus", quick=1, thorough=1, shards=16),
+        dict(name="fmt", test="TestFmt", quick=4000, thorough=200000, shards=16),
+    ],
+    technique="corpus enumeration + rapid generation (token mutations, whitespace/comment mutations, generated programs printed with a random layout); oracles: parse(fmt(x)) has the same position-free tree incl. comment attachment, fmt(fmt(x)) == fmt(x), and for -s evaluation equivalence",
+    level_text="exploration: every embedded corpus source with and without -s, plus mutated and generated inputs; the formatter in use is the default one (cue/format -> internal/pretty, FormatV2).",
+    level_note="trusted: the parser (C09) to read both sides; the structural dump (node kinds, operators, identifiers, literals by decoded value, attributes verbatim, comment groups under their owner with doc/line class); canon for the -s meaning check",
+    rule="input parses (else skipped); format.Source must succeed, its output must parse to the same dump (without -s), keep every comment in order and under the same owner, and be a fixed point; with -s the comment count and the evaluated meaning must be preserved. Non-trivial = input has a comment or a multi-line list/call/struct.",
+    assumptions=["import declarations may be regrouped by the formatter: only the import specs are compared",
+                 "three gating modes: strict (unmodified corpus files and canonically printed generated programs: every clause gated), layout (generated programs with a random comment-free layout: everything but idempotence), lenient (mutated inputs and layouts with inserted comments: only 'formats and the output parses'); what the lenient mode sees but does not gate is counted per class and is covered by known findings F54 F58 F59 F62",
+                 "comment attachment is compared per top-level declaration, not per owner node (the parser derives the owner from layout)"],
+)
+
 NOT_APPLICABLE = {}
 HOOK_COMMITS = []
